@@ -39,6 +39,11 @@ def generate(rng, tier, index, backends):
     r = common.pick_rpc(rng, n)
     n_sel = 10 if tier == "quick" else 24
     sels = [select.gen_selection(rng, n, p) for _ in range(n_sel)]
+    if n * p >= 200000:
+        # big files: rows that are far apart in the file (strides of a tenth to all of the lines)
+        for step in (max(n // 2, 2), max(n // 3, 2), max(n // 10, 2), max(n - 1, 2)):
+            sels.append({"kind": "isel", "rows": {"slice": [rng.choice([None, 0, 1, 3]), None,
+                                                            step * rng.choice([1, 1, -1])]}})
     enum = None
     if n <= 4 and p <= 4 and rng.random() < (0.5 if tier == "quick" else 1.0):
         # quick: a seeded sample of the complete int/slice family, thorough: all of it
